@@ -18,12 +18,12 @@ Proof. intros x H0 H1. unfold in01. qconst. lra. Qed.
 (* the colour components `set` sends in rgb units *)
 Lemma rgb_to_raw_Q_sent : forall c : color4 Q,
   param_color_Q (rgb_to_raw_Q c) =
-  let '(h, s, v) := rgb_to_hsv_Q (c0 c / (100 # 1)) (c1 c / (100 # 1)) (c2 c / (100 # 1)) in
+  let '(h, s, v) := guarded_rgb_to_hsv_Q (c0 c / (100 # 1)) (c1 c / (100 # 1)) (c2 c / (100 # 1)) in
   mkcolor (param_16_Q (h * (65535 # 1))) (param_16_Q (s * (65535 # 1))) (param_16_Q (v * (65535 # 1)))
           (param_16_Q (c3 (rgb_to_raw_Q c))).
 Proof.
   intro c. unfold rgb_to_raw_Q.
-  destruct (rgb_to_hsv_Q _ _ _) as [[h s] v].
+  destruct (guarded_rgb_to_hsv_Q _ _ _) as [[h s] v].
   unfold param_color_Q, cmap; simpl.
   change (py_round_Q (py_max_Q (z2q 0) (py_min_Q (h * (65535 # 1)) (z2q 65535)))) with (param_16_Q (h * (65535 # 1))).
   change (py_round_Q (py_max_Q (z2q 0) (py_min_Q (s * (65535 # 1)) (z2q 65535)))) with (param_16_Q (s * (65535 # 1))).
@@ -71,7 +71,7 @@ Qed.
 Lemma kelvin_sent_nearest : forall c : color4 Q,
   nearest_clamped 0 65535 (c3 c) (param_16_Q (c3 (rgb_to_raw_Q c))).
 Proof.
-  intro c. unfold rgb_to_raw_Q. destruct (rgb_to_hsv_Q _ _ _) as [[h s] v]. simpl c3.
+  intro c. unfold rgb_to_raw_Q. destruct (guarded_rgb_to_hsv_Q _ _ _) as [[h s] v]. simpl c3.
   first [ apply param_16_Q_spec | apply rounded_then_clamped ].
 Qed.
 
@@ -98,9 +98,40 @@ Proof.
   pose proof (hsv_rgb_roundtrip _ _ _ (in01_pct _ R0 R1) (in01_pct _ G0 G1) (in01_pct _ B0 B1)) as RT.
   pose proof (kelvin_sent_nearest c) as K.
   unfold canonical_color_Q, as_raw_color_Q, g_as_raw_color. rewrite rgb_to_raw_Q_sent.
-  destruct (rgb_to_hsv_Q (c0 c / (100 # 1)) (c1 c / (100 # 1)) (c2 c / (100 # 1))) as [[h s] v].
-  destruct Rg as [Hh [Hs Hv]].
-  exists h, s, v. simpl c0; simpl c1; simpl c2; simpl c3.
-  repeat split; try apply Hh; try apply Hs; try apply Hv; try apply RT;
-    try reflexivity; try apply param_16_Q_spec. exact K.
+  unfold guarded_rgb_to_hsv_Q.
+  destruct (Qeqb (py_max_Q (py_max_Q (c0 c / (100 # 1)) (c1 c / (100 # 1))) (c2 c / (100 # 1))) (0 # 1)) eqn:E.
+  - (* nothing above zero: the colour is black, sent as (0, 0, 0) *)
+    apply Qeq_bool_iff in E.
+    assert (Z3 : c0 c / (100 # 1) == 0 /\ c1 c / (100 # 1) == 0 /\ c2 c / (100 # 1) == 0).
+    { pose proof (in01_pct _ R0 R1) as [A0 _]. pose proof (in01_pct _ G0 G1) as [A1 _]. pose proof (in01_pct _ B0 B1) as [A2 _].
+      revert E. unfold py_max_Q.
+      destruct (Qltb (c0 c / (100 # 1)) (c1 c / (100 # 1))) eqn:E1;
+      [apply Qltb_true in E1 | apply Qltb_false in E1];
+      match goal with |- context [Qltb ?a ?b] => destruct (Qltb a b) eqn:E2; [apply Qltb_true in E2 | apply Qltb_false in E2] end;
+      intro E; repeat split; lra. }
+    destruct Z3 as [Z0 [Z1 Z2]].
+    exists 0, 0, 0. simpl c0; simpl c1; simpl c2; simpl c3.
+    repeat split;
+      first [ lra | reflexivity | apply param_16_Q_spec | exact K
+            | (unfold hsv_to_rgb_Q, triple_eq in *; simpl in *; lra) | idtac ].
+    all: try (unfold hsv_to_rgb_Q, triple_eq; simpl; repeat split; lra).
+  - destruct (rgb_to_hsv_Q (c0 c / (100 # 1)) (c1 c / (100 # 1)) (c2 c / (100 # 1))) as [[h s] v].
+    destruct Rg as [Hh [Hs Hv]].
+    exists h, s, v. simpl c0; simpl c1; simpl c2; simpl c3.
+    repeat split; try apply Hh; try apply Hs; try apply Hv; try apply RT;
+      try reflexivity; try apply param_16_Q_spec. exact K.
+Qed.
+
+(* D62: with no component above zero (and none of them positive) the colour sent is black -- the
+   wrapper around colorsys answers (0, 0, 0) where colorsys itself would divide by zero *)
+Theorem rgb_nothing_positive_is_black : forall c : color4 Q,
+  py_max_Q (py_max_Q (c0 c / (100 # 1)) (c1 c / (100 # 1))) (c2 c / (100 # 1)) == 0 ->
+  c0 (canonical_color_Q RGB c) = 0%Z /\ c1 (canonical_color_Q RGB c) = 0%Z /\ c2 (canonical_color_Q RGB c) = 0%Z.
+Proof.
+  intros c E.
+  unfold canonical_color_Q, as_raw_color_Q, g_as_raw_color. rewrite rgb_to_raw_Q_sent.
+  unfold guarded_rgb_to_hsv_Q.
+  assert (B : Qeqb (py_max_Q (py_max_Q (c0 c / (100 # 1)) (c1 c / (100 # 1))) (c2 c / (100 # 1))) (0 # 1) = true)
+    by (unfold Qeqb; apply Qeq_bool_iff; exact E).
+  rewrite B. simpl. repeat split; reflexivity.
 Qed.
